@@ -55,9 +55,14 @@ def _build_h09(ctx):
     shutil.copy(os.path.join(root, "h", "common_test.go"), os.path.join(moddir, "zz_common_test.go"))
     out = os.path.join(work, "h09.test")
     env = dict(ctx["env"])
+    cmd = ["./build.sh", out, os.path.join(ov, "overlay.json")]
     if repo != "/repo":
-        ctx["infra"]("the comparison-trace build supports VERIF_REPO=/repo only")
-    rc, o = ctx["run"](["./build.sh", out, os.path.join(ov, "overlay.json")], moddir, env, 1800, os.path.join(work, "build.log"))
+        src = open(os.path.join(moddir, "go.mod")).read().replace("=> /repo", "=> " + repo)
+        mf = os.path.join(work, "h09.go.mod")
+        open(mf, "w").write(src)
+        shutil.copy(os.path.join(moddir, "go.sum"), os.path.join(work, "h09.go.sum"))
+        cmd.append("-modfile=" + mf)
+    rc, o = ctx["run"](cmd, moddir, env, 1800, os.path.join(work, "build.log"))
     if rc != 0:
         ctx["infra"]("instrumented build failed", o)
     return moddir, {"plain": out}
